@@ -46,7 +46,8 @@ for label, nets in [
 ]:
     try: print(label, '->', rd(nets))
     except Exception as e: print(label, '-> raises', type(e).__name__, str(e)[:90])
-# ---- found by the whole-file reader model (Fmt/EdifFile.v) and its tie (harness/edif_file.py) ----
+# ---- found by the whole-file reader model (Fmt/EdifFile.v) and its tie (harness/edif_file.py); REPAIRED:
+# on the repaired reader K14, K15 and the second K16 line raise, the first K16 line prints ['work', 'later'] ----
 def rdfile(text):
     d = tempfile.mkdtemp(); p = os.path.join(d, 'i.edf'); open(p, 'w').write(text); return sdn.parse(p)
 W = '''(edif n (edifVersion 2 0 0) (edifLevel 0) (keywordMap (keywordLevel 0)) (library work (edifLevel 0) (technology (numberDefinition))
